@@ -55,6 +55,7 @@ import (
 	"google.golang.org/grpc"
 	"google.golang.org/grpc/codes"
 	"google.golang.org/grpc/status"
+	"google.golang.org/protobuf/proto"
 	"rsc.io/binaryregexp"
 )
 
@@ -196,6 +197,9 @@ func (s *server) CreateTable(ctx context.Context, req *btapb.CreateTableRequest)
 		req.Table = &btapb.Table{}
 	}
 	req.Table.Name = tbl
+	// req.Table becomes the live definition below; the response (marshalled after this method
+	// returns) must not share its family map, so copy it before other requests can see the table.
+	cfs := proto.Clone(req.Table).(*btapb.Table).GetColumnFamilies()
 	rows := s.storage.Create(req.Table)
 	s.tables[tbl] = newTable(req.Table, rows)
 
@@ -203,7 +207,7 @@ func (s *server) CreateTable(ctx context.Context, req *btapb.CreateTableRequest)
 
 	ct := &btapb.Table{
 		Name:           tbl,
-		ColumnFamilies: req.GetTable().GetColumnFamilies(),
+		ColumnFamilies: cfs,
 		Granularity:    req.GetTable().GetGranularity(),
 	}
 	if ct.Granularity == 0 {
@@ -235,9 +239,11 @@ func (s *server) GetTable(ctx context.Context, req *btapb.GetTableRequest) (*bta
 		return nil, status.Errorf(codes.NotFound, "table %q not found", req.Name)
 	}
 
-	s.mu.Lock()
-	defer s.mu.Unlock()
-	return tbl.def, nil
+	// The definition is marshalled after this method returns: hand out a copy taken under the
+	// table lock, not the live message that ModifyColumnFamilies mutates.
+	tbl.mu.RLock()
+	defer tbl.mu.RUnlock()
+	return proto.Clone(tbl.def).(*btapb.Table), nil
 }
 
 func (s *server) DeleteTable(ctx context.Context, req *btapb.DeleteTableRequest) (*emptypb.Empty, error) {
@@ -325,7 +331,7 @@ func (s *server) ModifyColumnFamilies(ctx context.Context, req *btapb.ModifyColu
 	}
 
 	s.storage.SetTableMeta(tbl.def)
-	return tbl.def, nil
+	return proto.Clone(tbl.def).(*btapb.Table), nil
 }
 
 func (s *server) DropRowRange(ctx context.Context, req *btapb.DropRowRangeRequest) (*emptypb.Empty, error) {
